@@ -1,4 +1,4 @@
-import CollectionsC.Proofs.ArrayStep
+import CollectionsC.Proofs.ArrayMem
 /-! # C16 (array and stack part) — rejected operations are inert, for every argument value
 
 Statements only.  For every indexed function of `cc_array.c` and **every index in `Nat`** (the whole
@@ -103,12 +103,30 @@ theorem new_invalid (cap : Nat) (grow : Nat → Nat) (exGe : Nat → Bool) (m : 
         · exact h
       simp [h0, h1, h2]
 
-/-- in one statement over whole histories: any call of the C01 vocabulary that reports an error
-status returns the state it was given -/
+/-- **`error_is_inert`**: any call of the C01 vocabulary that reports a status other than `CC_OK`
+(`CC_ERR_ALLOC` included) returns the state it was given; when the status is not `CC_ERR_ALLOC` the
+whole ledger is untouched as well, and in every case block counters and fault flag are what they were -/
 theorem error_is_inert (cfg : Spec.Seq.Cfg) (a : Arr) (op : Spec.Seq.Op) (m : Mem) (hinv : a.Inv)
     (hsort : ∀ xs, (cfg.sortFn xs).length = xs.length) (st : Stat)
-    (h1 : (a.step cfg op m).1.st = some st) (h2 : st ≠ .ok) : (a.step cfg op m).2.1 = a :=
-  (Arr.step_spec cfg a op m hinv hsort).2.2.2.2.2.2 st h1 h2
+    (h1 : (a.step cfg op m).1.st = some st) (h2 : st ≠ .ok) :
+    (a.step cfg op m).2.1 = a ∧ (a.step cfg op m).2.2.live = m.live ∧ (a.step cfg op m).2.2.liveLibc = m.liveLibc ∧
+    (a.step cfg op m).2.2.fault = m.fault ∧ (st ≠ .errAlloc → (a.step cfg op m).2.2.nrefused = m.nrefused) := by
+  obtain ⟨_, _, _, _, s5, s6, s7⟩ := Arr.step_spec cfg a op m hinv hsort
+  obtain ⟨l1, l2, l3, _⟩ := Arr.step_led cfg a op m hinv
+  refine ⟨s7 st h1 h2, s5, ?_, s6, fun hne => ?_⟩
+  · cases ht : a.triple with
+    | conf => rw [ht] at l2; exact l2.1
+    | libc => rw [ht] at l1; simpa [Arr.own] using l1
+  · have : ¬ (a.step cfg op m).1.st = some .errAlloc := by rw [h1]; simpa using hne
+    simpa [this] using l3
+
+/-- `cc_array_filter` on the empty array: rejected, nothing allocated -/
+theorem filter_empty_rejected (p : Nat → Bool) (a : Arr) (m : Mem) (hinv : a.Inv) (h : a.size = 0) :
+    (a.filter p m).1 = .errOutOfRange ∧ (a.filter p m).2.1 = none ∧ (a.filter p m).2.2.2 = m := by
+  rcases Arr.filter_spec p a m hinv with ⟨s1, _, s2, s3⟩ | ⟨_, h0, _⟩ | ⟨_, h0, _⟩
+  · exact ⟨s1, s2, s3⟩
+  · omega
+  · omega
 
 /-- **`out_of_range_rejected`**, the range table in one statement: for every index in `Nat`,
 `add_at` accepts exactly `[0,size]` (unless blocked by the allocator or the capacity limit), and
@@ -144,5 +162,14 @@ theorem zip_error_is_inert (a1 a2 : Arr) (it : ArrIter) (z : Spec.Seq.ZipCursor)
     ((Arr.zipReplace a1 a2 it x y m).1 ≠ .ok → (Arr.zipReplace a1 a2 it x y m).2.2.1 = a1 ∧
       (Arr.zipReplace a1 a2 it x y m).2.2.2.1 = a2) :=
   ⟨(Arr.zipRemove_sim a1 a2 it z m h1 h2 hs).2.2.2.2.2.2.2.2, (Arr.zipReplace_sim a1 a2 it z x y m h1 h2 hs).2.2.2.2.2.2.2.2⟩
+
+/-! Non-vacuity: an array of size 3 in a block of 4; every boundary index is rejected and the state
+(including the dead slot) is what it was -/
+example :
+    let a : Arr := Arr.mk 3 4 [10, 20, 30, 77] (fun c => 2 * c) .conf
+    a.Inv ∧ (a.getAt 3 {}).1 = .errOutOfRange ∧ (a.removeAt (2 ^ 64 - 1) {}).1 = .errOutOfRange ∧
+    (a.addAt 9 4 {}).1 = .errOutOfRange ∧ (a.addAt 9 3 {}).1 = .ok ∧ (a.swapAt 0 3 {}).1 = .errOutOfRange ∧
+    (a.subarray 2 3 {}).1 = .errInvalidRange ∧ (a.removeAt 3 {}).2.2.1.buf = [10, 20, 30, 77] ∧
+    ((Arr.mk 0 1 [0] id .conf).removeLast {}).1 = .errOutOfRange := by decide
 
 end CC.Properties.C16Array
